@@ -264,6 +264,7 @@ theorem step_kind (H : List Nat → η) (s : Frag η) (op : Op) : (step H s op).
   | setValue c depth v => simp [step]
   | clearValue c depth v => simp [step]
   | snapshot => rfl
+  | reopen => rfl
   | invalidateChecksums => rfl
   | row r => simp only [step, row]; split <;> rfl
   | blocks => rfl
